@@ -174,3 +174,31 @@ func vPemTextOne(n int) {
 	got := sb.String()
 	vAssert(len(got) == len(want) && got == want, "the PEM block is not the canonical text of its DER content (decoding and re-encoding does not reproduce it)")
 }
+
+// vhAllKeysCanonical: C02 for every key algorithm of the schema. A minimal
+// certificate (subject, fixed serial and validity, subjectKeyIdentifier) is
+// generated for each of the 14 keyAlgorithm names - the signature algorithm
+// follows from the key type - and the independent DER walker reads the whole
+// certificate: the SubjectPublicKeyInfo of every curve and modulus size
+// (algorithm OID, namedCurve parameters or NULL, key bits) is canonical DER
+// like the rest.
+func vhAllKeysCanonical() {
+	names := []string{"RSA-1024", "RSA-2048", "RSA-4096", "RSA-8192", "P-224", "P-256", "P-384", "P-521",
+		"brainpoolP256r1", "brainpoolP384r1", "brainpoolP512r1", "brainpoolP256t1", "brainpoolP384t1", "brainpoolP512t1"}
+	k := vChoose("keyAlgorithm", len(names))
+	cfg := CertConfig{Subject: "CN=k,C=DE", KeyAlgorithm: names[k], Validity: CertValidity{From: "2024-03-05", Until: "2031-02-03"},
+		Extensions: []AnyExtension{{SubjectKeyIdentifier: &SubjectKeyIdentifier{Content: "hash"}}}}
+	vSetNum(&cfg.SerialNumber, 7)
+	crt, _, err := vGenerate(cfg)
+	vAssert(err == nil && crt != nil, "generation failed for a key algorithm of the schema")
+	if err != nil || crt == nil {
+		return
+	}
+	vReach("generated")
+	der, merr := asn1.Marshal(*crt)
+	vAssert(merr == nil, "the generated certificate cannot be encoded")
+	if merr != nil {
+		return
+	}
+	vDerCertificate(der, true, "certificate")
+}
